@@ -1,4 +1,5 @@
 import PyPhysim.Proofs.C14Robust
+import PyPhysim.Proofs.C14Gen
 
 /-!
 # C14 — Jakes fading samples do not depend on how generation was chunked
@@ -9,7 +10,15 @@ are the hand model of `JakesSampleGenerator` after the repair of finding
 `C14:float-stepped-arange` (index based time vector); the model is tied to the
 code by the correspondence of `harness/props/c14.py` (exact counts, shapes,
 sample numbers and phase epochs of every request of seeded histories; time
-vectors and values against the same definitions run at `Float`).
+vectors and values against the same definitions run at `Float`) AND by the
+section "the model is the current source": `Generated/C14Jakes.lean` is
+re-emitted on every run from the AST of `generate_more_samples`,
+`skip_samples_for_next_generation`, `_generate_time_samples` and
+`generate_jakes_samples` (symbolic execution with canonical linear integer
+forms; real-expression fragment), and the bridge theorems
+`generated_bookkeeping_matches_model`, `generated_jakes_formula_matches_model`,
+`generated_request_evaluates_model_samples` equate it with the hand model for
+ALL counters, request sizes and parameters.
 
 The last three theorems are about the model of the stepping the code used
 BEFORE the repair (`np.arange(ct, n*Ts+ct, Ts*1.0000000001)`): negative
@@ -360,6 +369,95 @@ theorem close_phase_distinct_samples (Fd t phi psi psi' : ℝ) (h0 : psi ≠ psi
   apply single_ray_ne_of_phase
   · intro h; apply h0; simpa [rayPhase] using h
   · simpa [rayPhase] using h1
+
+/-! ### the model is the current source (regenerated module `Generated/C14Jakes.lean`) -/
+
+/-- BRIDGE (bookkeeping).  For every state and every request size as passed
+    (no argument, an integer-valued object of any sign, a non-integer), the
+    bookkeeping symbolically executed from the CURRENT source is the model's
+    step:
+    * `generate_more_samples`: the counter after the call — ALSO when the call
+      raises, so a refused size leaves the counter (validation before the state
+      changes) —, the exception raised, and for an accepted request the integer
+      index vector `first + step·j, j < count` multiplied into the time vector:
+      first = the counter, count = the requested number, step 1, i.e. exactly
+      the sample numbers of the model's block;
+    * `skip_samples_for_next_generation`: counter after the call and exception;
+    * `__init__` starts the counter at 0. -/
+theorem generated_bookkeeping_matches_model (s : State) (a : SizeArg) :
+    Generated.C14.genStep (s.k : Int) a = modelGenStep s a ∧
+    Generated.C14.skipStep (s.k : Int) a = modelSkipStep s a ∧
+    (∀ e, (RawOp.gen a).check = .error e →
+        (Generated.C14.genStep (s.k : Int) a).1 = s.k ∧ genIndexes (s.k : Int) a = []) ∧
+    (∀ e, (RawOp.skip a).check = .error e → (Generated.C14.skipStep (s.k : Int) a).1 = s.k) ∧
+    (∀ op, (RawOp.gen a).check = .ok op → ∃ n, op = .gen n ∧
+        (Generated.C14.genStep (s.k : Int) a).1 = ((s.k + reqCount n : Nat) : Int) ∧
+        genIndexes (s.k : Int) a = ((genBlock s n).samples id).map Int.ofNat) ∧
+    Generated.C14.initCounter = 0 := by
+  refine ⟨genStep_eq_model s a, skipStep_eq_model s a, ?_, ?_, ?_, initCounter_eq⟩
+  · intro e h
+    refine ⟨?_, genIndexes_refused s a e h⟩
+    rw [genStep_eq_model]; simp [modelGenStep, stepR, h]
+  · intro e h
+    rw [skipStep_eq_model]; simp [modelSkipStep, stepR, h]
+  · intro op h
+    obtain ⟨n, rfl, hi⟩ := genIndexes_eq_block s a _ h
+    refine ⟨n, rfl, ?_, hi⟩
+    rw [genStep_eq_model]; simp [modelGenStep, stepR, h, step]
+
+/-- non-vacuity / concrete instance: at counter 13 a request of 4 samples
+    evaluates the sample numbers 13..16 and moves the counter to 17; a request
+    of -4 raises `ValueError` and a float raises `TypeError` with the counter
+    still 13; a skip of 4 moves it to 17. -/
+example : genIndexes 13 (.int 4) = [13, 14, 15, 16] ∧
+    Generated.C14.genStep 13 (.int 4) = (17, .ok (13, 4, 1)) ∧
+    Generated.C14.genStep 13 (.int (-4)) = (13, .error .ValueError) ∧
+    Generated.C14.genStep 13 .notInt = (13, .error .TypeError) ∧
+    Generated.C14.genStep 13 .default = (14, .ok (13, 1, 1)) ∧
+    Generated.C14.skipStep 13 (.int 4) = (17, none) ∧
+    Generated.C14.skipStep 13 (.int (-4)) = (13, some .ValueError) := by decide
+
+/-- BRIDGE (times and formula, over ℝ).  Regenerated from the current source:
+    the time of sample index `i` is the product `i · Ts` (the translator accepts
+    a time vector only as (integer index vector) · scalar); the phase of a ray
+    is `2π·Fd·cos(φ_l)·t + ψ_l`; the amplitude is `sqrt(1/L)`; the sum over the
+    rays with `L = 0` raising `ZeroDivisionError` is the model's `jakes`; so the
+    regenerated value of sample index `k` is the model's `processSample`.  The
+    formula of the free function `generate_jakes_samples` is the same. -/
+theorem generated_jakes_formula_matches_model (Fd Ts t : ℝ) (rays : List (ℝ × ℝ)) (ray : ℝ × ℝ)
+    (k : Nat) :
+    Generated.C14.timeOfIndex Ts k = (k : ℝ) * Ts ∧
+    Generated.C14.rayPhase Fd t ray = 2 * Real.pi * Fd * Real.cos ray.1 * t + ray.2 ∧
+    Generated.C14.amplitude rays.length = Real.sqrt (1 / (rays.length : ℝ)) ∧
+    Generated.C14.jakes Fd rays.length rays t = jakes Fd rays t ∧
+    Generated.C14.jakes Fd rays.length rays (Generated.C14.timeOfIndex Ts k) =
+      processSample Fd Ts rays k ∧
+    Generated.C14.freeJakes Fd rays.length rays t = jakes Fd rays t := by
+  refine ⟨timeOfIndex_eq Ts k, ?_, ?_, jakesGen_eq Fd rays t, ?_, freeJakes_eq Fd rays t⟩
+  · rw [rayPhaseGen_eq]; simp [rayPhase]
+  · rw [amplitudeGen_eq]; simp
+  · rw [jakesGen_eq, timeOfIndex_eq]; rfl
+
+/-- BRIDGE (end to end).  Whatever the state, an accepted regenerated request
+    evaluates the regenerated formula at the regenerated times of its index
+    vector, and that is, entry by entry, the value the model gives to the block
+    the request produces: entry `(idx, j)` is the Jakes sum of sample number
+    `k + j` — independent of how the samples before were chunked. -/
+theorem generated_request_evaluates_model_samples (Fd Ts : ℝ)
+    (phases : Nat → List Nat → List (ℝ × ℝ)) (s : State) (a : SizeArg) (n : Option Nat)
+    (h : (RawOp.gen a).check = .ok (.gen n)) (idx : List Nat) :
+    (genIndexes (s.k : Int) a).map (fun i =>
+        Generated.C14.jakes Fd (phases s.epoch idx).length (phases s.epoch idx)
+          (Generated.C14.timeOfIndex Ts i.toNat)) =
+      (List.range (reqCount n)).map fun j => (genBlock s n).value Fd Ts phases idx j := by
+  obtain ⟨n', hn, hi⟩ := genIndexes_eq_block s a _ h
+  cases hn
+  rw [hi]
+  simp only [Block.samples, List.map_map, genBlock]
+  apply List.map_congr_left
+  intro j _
+  simp only [Function.comp, id, Int.toNat_natCast, Int.ofNat_eq_natCast, jakesGen_eq, timeOfIndex_eq,
+    Block.value, processSample]
 
 /-! ### the stepping used before the repair (fixed finding `C14:float-stepped-arange`) -/
 
